@@ -34,6 +34,14 @@ def check(repo: Repo, rep, tier):
     from .C18 import changes_fresh
 
     changes_fresh(repo, rep)
+    from .C10 import map_total
+    from .C04 import xfail_marker
+    from .C05 import flag_label
+
+    # the stored value is a private copy; a test is deactivated only when pytest itself treats it as xfail; a requested key is not trimmed
+    map_total(repo, rep)
+    xfail_marker(repo, rep)
+    flag_label(repo, rep)
 
 
 def wrapper_frames(repo: Repo, f: Func):
